@@ -235,10 +235,29 @@ def run_impl(case):
             P.from_text('filler')
         res = glom.glom(target, _spec(case))
     except Exception as e:
-        return exc_outcome(e)
+        out = exc_outcome(e)
+    else:
+        out = {'ok': _enc(hr, res)}
     finally:
         P._MAX_CACHE = saved
-    return {'ok': _enc(hr, res)}
+    if case['spelling'] != 'text' and not case.get('full_cache'):
+        # the same steps taken from a scope variable holding the target: S.v.<steps> (F34: the steps after a wildcard are
+        # applied to each child, whatever the path started from)
+        hr2 = HeapRealiser(case['cells'])
+        target2 = hr2.val(case['target'])
+        try:
+            res2 = glom.glom(target2, (glom.S(v=glom.T), glom.Path(glom.S['v'], _spec(case))))
+        except Exception as e:
+            o2 = exc_outcome(e)
+            if 'part_idx' in o2:
+                o2['part_idx'] -= 1
+        else:
+            o2 = {'ok': _enc(hr2, res2)}
+        a = {k: out.get(k) for k in ('ok', 'raise', 'part_idx', 'inner')}
+        b = {k: o2.get(k) for k in ('ok', 'raise', 'part_idx', 'inner')}
+        if a != b:
+            out['problems'] = ['the same steps under an S root differ: T-rooted %r, S-rooted %r' % (a, b)]
+    return out
 
 
 def wres_coq(r):
